@@ -166,8 +166,12 @@ Proof.
     + unfold W64, max_int in *. lia.
     + unfold u64 at 1. exists (range_fill (Z.to_nat (q + 1)) 0 (start mod W64) step).
       split; [reflexivity|]. split; [exact S|]. intros z. rewrite I. unfold in_range. split.
-      * intros [j [Hj Ez]]. exists j. split; [lia|]. split; [lia|]. left. nia.
-      * intros [k [Hk [Ez [[_ Bz]|[? ?]]]]]; [|lia]. exists k. split; [nia|lia].
+      * intros [j [Hj Ez]]. exists j. split; [lia|]. split; [lia|]. left.
+        assert (0 <= j * step <= q * step) by (split; [apply Z.mul_nonneg_nonneg; lia | apply Z.mul_le_mono_nonneg_r; lia]).
+        lia.
+      * intros [k [Hk [Ez [[_ Bz]|[? ?]]]]]; [|lia]. exists k.
+        assert (k < q + 1) by (apply (Zmult_lt_reg_r _ _ step); lia).
+        split; lia.
   - (* descending *)
     assert (Hlt : e < start) by lia. assert (Hst : 0 < - step) by lia.
     assert (Ed : u64 (u64 start - u64 e) = start - e) by (unfold u64, W64; lia).
@@ -199,9 +203,12 @@ Proof.
     + unfold W64, max_int in *. lia.
     + exists (range_fill (Z.to_nat (q + 1)) 0 ((start - q * st) mod W64) st).
       split; [reflexivity|]. split; [exact S|]. intros z. rewrite I. unfold in_range. split.
-      * intros [j [Hj Ez]]. exists (q - j). split; [lia|]. split; [unfold st in *; nia|]. right. split; [exact Hlt|]. nia.
+      * intros [j [Hj Ez]]. exists (q - j). split; [lia|]. split; [unfold st in *; nia|]. right. split; [exact Hlt|].
+        assert (0 <= j * st <= q * st) by (split; [apply Z.mul_nonneg_nonneg; lia | apply Z.mul_le_mono_nonneg_r; lia]).
+        lia.
       * intros [k [Hk [Ez [[? ?]|[_ Bz]]]]]; [lia|].
-        assert (k <= q) by (unfold st in *; nia).
+        assert (Hks : k * st = - (k * step)) by (unfold st; ring).
+        assert (k <= q) by (apply Z.lt_succ_r; apply (Zmult_lt_reg_r _ _ st); [lia|]; unfold Z.succ; lia).
         exists (q - k). split; [lia|]. unfold st in *. nia.
 Qed.
 
